@@ -1,6 +1,6 @@
 --------------------------- MODULE SpansIncrTrace ---------------------------
 (* Step-by-step trace validation of SpansBySamples.first_pass (C15's anchor).       *)
-(* vt/looptrace_spans.py records, at the end of every iteration of the tree loop of  *)
+(* vt/spansincr_common.py records, at the end of every iteration of the tree loop of *)
 (* the real first_pass (sys.settrace keyed on the source text of the last statement   *)
 (* of the loop body), the locals stored_pos / num_children /                          *)
 (* num_fixed_at_0_treenodes / node_spans and the table self._spans, and once more      *)
@@ -62,7 +62,7 @@ End ==
     /\ l <= Len(Trace) /\ Ev.kind = "end" /\ ~CanSkip
     /\ IF pc = "run" /\ i = L THEN LastOn(inst)
        ELSE D("the code left the tree loop before the last tree", FALSE) /\ UNCHANGED <<pc, mvars>>
-    /\ LET ok == /\ M("first_pass raised no exception", Ev.error = "")
+    /\ LET ok == /\ M("SpansBySamples raised no exception", Ev.error = "")
                  /\ D("machine finished", pc' = "done")
                  /\ D("final _spans equals the machine's", KeysOK(Ev) /\ pc' = "done" => acc' = AccOf(Ev))
                  /\ M("SpanTablesExact", RFinalExact)
